@@ -2,7 +2,7 @@
    settings, any two ranker functions (constant, adversarial, non-injective ones
    included) and any two prefilter states give the same answer, because each
    gives the specification's answer. *)
-From Memchr Require Import Spec SpecProofs Params Sub.Prefilter Sub.TwoWay Sub.TwoWayCert Sub.Searcher Sub.SearcherProofs.
+From Memchr Require Import Spec SpecProofs Params Sub.Prefilter Sub.TwoWay Sub.TwoWayCert Sub.Searcher Sub.SearcherProofs Sub.TwoWayTier2.
 
 Example C10_saturating_multiply : pre_mul_saturating = true.
 Proof. reflexivity. Qed.
@@ -46,5 +46,36 @@ Example C10_example :
        finder_find (AX86 HasAvx2) f 9 (repeat 5%N 20 ++ [6%N])) = Ok (Some 17).
 Proof. vm_compute. split; reflexivity. Qed.
 
+Lemma C10_cert_always : forall ar x, tw_reach_fwd ar x = true -> tw_cert_fwd_of x = true.
+Proof.
+  intros ar x H. apply tw_cert_fwd_all. unfold tw_reach_fwd in H. apply andb_true_iff in H as [H _].
+  apply Nat.leb_le in H. lia.
+Qed.
+
+(* unconditional forms (Tier 2) *)
+Theorem C10_config_and_ranker_irrelevant :
+  forall cfg1 cfg2 (rank1 rank2 : N -> N) ar a1 a2 h x,
+  bytes_ok x -> bytes_ok h ->
+  fst (f <- finder_new cfg1 rank1 ar x;; finder_find ar f a1 h) =
+  fst (f <- finder_new cfg2 rank2 ar x;; finder_find ar f a2 h).
+Proof.
+  intros. apply C10_config_and_ranker_irrelevant_partial; try assumption. apply C10_cert_always.
+Qed.
+
+Theorem C10_prefilter_state_irrelevant :
+  forall cfg rank ar a h x f (st1 st2 : prestate),
+  bytes_ok x -> bytes_ok h ->
+  fst (finder_new cfg rank ar x) = Ok f ->
+  exists r1 r2,
+    fst (searcher_find ar (f_searcher f) st1 a h (f_needle f)) = Ok r1 /\
+    fst (searcher_find ar (f_searcher f) st2 a h (f_needle f)) = Ok r2 /\
+    fst r1 = fst r2 /\ fst r1 = find_spec x h.
+Proof.
+  intros cfg rank ar a h x f st1 st2 Hx Hh Hf.
+  apply (C10_prefilter_state_irrelevant_partial cfg rank ar a h x f st1 st2 Hx Hh Hf). apply C10_cert_always.
+Qed.
+
+Print Assumptions C10_config_and_ranker_irrelevant.
+Print Assumptions C10_prefilter_state_irrelevant.
 Print Assumptions C10_config_and_ranker_irrelevant_partial.
 Print Assumptions C10_prefilter_state_irrelevant_partial.
